@@ -208,7 +208,7 @@ def run(tier):
                 met[{"v": "no_error_value_only", "d": "no_error_with_first_partials", "h": "no_error_with_second_partials"}[cur["mode"]]] += 1
     if rcode == 0 and not all(met.values()):
         raise Broken("a clause was vacuous in this run: %s" % met)
-    if nskip and rcode == 0:
+    if nskip and not v.viol:      # skipping only happens after repeated hangs, which are rejections (new or known)
         raise Broken("%d calls were skipped although nothing was rejected" % nskip)
     with open(os.path.join(outdir(PID), "trace-%s.ndjson" % tier), "w") as f:
         for tr, lines in runs:
